@@ -8,8 +8,10 @@ solution and the obligations `safe_<entry>` / `glob_<entry>` / `wf_<entry>` (and
 provably returns an equal result) per public entry point, in lean/PersimVerif/Generated/ApiIR.lean and its shards.  The
 translator and its classification table are TRUSTED.
 [T]: the translator self-test on a seeded snippet corpus (each known-bad snippet must be rejected by the Lean checker,
-no known-good one may be; every translation must be well-formed), the check of the `out` / `copy` positions of the
-classification table against the installed numpy, and the DYNAMIC SWEEP over every public entry point (the list the
+no known-good one may be, each "refused" one must raise TranslatorError; every translation must be well-formed), the check
+of the `out` / `copy` / `overwrite_input` positions of the classification table against the installed numpy, the DYNAMIC
+PROBE of every function / method the table calls "fresh" (`fresh_probe`: identity, np.shares_memory, in-place write to the
+result, on real / complex / integer arrays, lists, sparse matrices), and the DYNAMIC SWEEP over every public entry point (the list the
 translator enumerates plus the public methods inherited from scikit-learn): arguments byte-compared before/after, calls
 repeated / interleaved / rebuilt and compared — for plotting functions the "result" is what was drawn (the data of the new
 artists, and on which axes) —, seeded reproducibility of the mGH upper bound, and representation independence (nested lists /
@@ -52,7 +54,9 @@ ASSUMPTIONS = [
 ]
 TRUSTED = [
     "harness/translator/py2ir.py and harness/translator/tables.py: the source -> IR translator and its classification table (printed into the "
-    "evidence as classification_table); policy.json / dynamic_only.json (committed, never written at run time)",
+    "evidence as classification_table); policy.json / dynamic_only.json / expected_obligations.json (committed, never written at run time): "
+    "policy.json holds, word for word, the only `_VERIF_*` hook statements left out of the model, the reviewed class decorators and the "
+    "reviewed writes of the entry points without a safety obligation",
     "the theorems are about IR programs: what ties them to persim is the translator, not a proof",
 ]
 PROP_FILES = ["PersimVerif/Props/C19.lean"] + py2ir.shard_files(common.REPO)
@@ -1421,14 +1425,26 @@ def history_check(ctx, name, kind, n):
 def self_test(ctx):
     """[T] the translator on the seeded snippet corpus, judged by the Lean checker (driver `ir.check`) and by the mirror"""
     lines, expect = [], []
-    for exp, entry, src in py2ir.SNIPPETS:
+    for sn in py2ir.SNIPPETS:
+        exp, entry, src = sn[:3]
+        policy = sn[3] if len(sn) > 3 else None
         try:
-            r = py2ir.translate_snippet(src, entry)
+            r = py2ir.translate_snippet(src, entry, policy)
         except py2ir.TranslatorError as e:
-            raise HarnessError("translator self-test: cannot translate snippet %r: %s" % (src, e))
+            # "refused": source the translator must NOT read as if the unmodelled part were absent (decorators, rebinding,
+            # conditional definitions …): the entry point then gets a deliberately failing obligation
+            ctx.test("snippet_corpus:refused", exp == "refused")
+            ctx.count("snippets:refused")
+            if exp != "refused":
+                raise HarnessError("translator self-test: cannot translate snippet %r: %s" % (src, e))
+            continue
+        if exp == "refused":
+            ctx.test("snippet_corpus:refused", False)
+            raise HarnessError("translator self-test failed: snippet %r must be refused (TranslatorError), it was translated" % (src,))
         lines.append("ir.check %s %s" % (r.prog.protocol(), py2ir.sol_protocol(r.sol)))
         lines.append("ir.fix %s %s" % (r.prog.protocol(), py2ir.sol_protocol(r.sol)))
-        lines.append("ir.globals %s [] [] F" % r.prog.protocol())
+        lines.append("ir.globals %s [%s] [%s] %s" % (r.prog.protocol(), ",".join(map(str, r.allowed_globals)),
+                                                     ",".join(map(str, r.allowed_globals)), "T" if r.allow_rng else "F"))
         lines.append("ir.wf %s %s" % (r.prog.protocol(), py2ir.sol_protocol(r.sol)))
         expect.append((exp, entry, src, r))
     # a program with a dropped defining instruction must be rejected by `wellFormed` although `safe` accepts it
@@ -1451,6 +1467,23 @@ def self_test(ctx):
         if verdict != exp or mirror != verdict:
             raise HarnessError("translator self-test failed: snippet %r expected %s, Lean checker says %s, mirror says %s"
                                % (src, exp, verdict, mirror))
+    # an obligation of the committed list must not disappear silently (process item of audit 3): an entry point that is no
+    # longer repeatable keeps its `repeat_` theorem (which then fails), a name that is no longer generated is listed
+    pol = {"constants": [], "expected_obligations": ["repeat_snippet_C_m", "safe_snippet_C_m", "safe_snippet_gone"]}
+    r = py2ir.translate_snippet("class C:\n    def m(self, a):\n        self.n = len(a)\n        return self.n\n", "C.m", pol)
+    missing = py2ir.translation_problems(py2ir.Project(sources={}), [r], pol)
+    ok = (not r.repeatable) and r.repeat_expected and ("theorem repeat_snippet_C_m" in r.lean()) and missing == ["missing obligation safe_snippet_gone"]
+    ctx.test("missing_obligation_reported", ok)
+    if not ok:
+        raise HarnessError("translator self-test failed: a `repeat_` theorem of the committed list that no longer holds / an expected "
+                           "obligation that is no longer generated is not reported (%r, %r, %r)" % (r.repeatable, r.repeat_expected, missing))
+    pol = {"constants": [], "expected_obligations": [], "dynamic_only": {"snippet.f": "test"}, "reviewed_unsafe_writes": {"snippet.f": ["a[0] = 1"]}}
+    r = py2ir.translate_snippet("def f(a):\n    a[0] = 1\n    a.sort()\n", "f", pol)
+    probs = py2ir.translation_problems(py2ir.Project(sources={}), [r], pol)
+    ok = r.kind == "dynamic_only" and len(probs) == 1 and "a.sort()" in probs[0]
+    ctx.test("unreviewed_write_in_dynamic_only_reported", ok)
+    if not ok:
+        raise HarnessError("translator self-test failed: an unreviewed write in a dynamic-only entry point is not reported: %r" % (probs,))
 
 
 def cross_check(ctx, results):
@@ -1474,10 +1507,238 @@ def cross_check(ctx, results):
         ctx.count("ir.wf:" + ("well_formed" if r.wf else "ill_formed"))
 
 
+# ----------------------------------------------------------------------------------------------- dynamic probe of the FRESH tables
+
+_PROBE_SCALARS = (int, float, complex, str, bytes, bool, type(None), np.generic, type, range, slice, np.dtype)
+
+
+def _probe_parts(o, depth=0):
+    """the mutable objects a value consists of (itself included), to depth 4: ndarrays (data and mask), the buffers of a sparse
+    matrix, the members of lists / tuples / sets / dicts"""
+    if isinstance(o, _PROBE_SCALARS) or depth > 4:
+        return
+    if isinstance(o, np.ndarray):
+        yield o
+        if isinstance(o, np.ma.MaskedArray):
+            yield np.ma.getdata(o)
+            if o.mask is not np.ma.nomask:
+                yield np.ma.getmaskarray(o)
+        if o.dtype == object:
+            for e in o.flat:
+                yield from _probe_parts(e, depth + 1)
+    elif isinstance(o, (list, tuple, set, frozenset)):
+        if not isinstance(o, (tuple, frozenset)):
+            yield o
+        for e in o:
+            yield from _probe_parts(e, depth + 1)
+    elif isinstance(o, dict):
+        yield o
+        for k, v in o.items():
+            yield from _probe_parts(v, depth + 1)
+    else:
+        yield o
+        for attr in ("data", "indices", "indptr", "row", "col", "rows", "coords"):
+            if type(o).__module__.startswith("scipy.sparse") and hasattr(o, attr):
+                yield from _probe_parts(getattr(o, attr), depth + 1)
+
+
+def _probe_snap(o, depth=0):
+    """the content of a sample, for the before / after comparison"""
+    if isinstance(o, np.ndarray):
+        return ("nd", o.shape, str(o.dtype), o.tobytes() if o.dtype != object else repr(o.tolist()))
+    if isinstance(o, (list, tuple)) and depth < 4:
+        return (type(o).__name__,) + tuple(_probe_snap(e, depth + 1) for e in o)
+    if isinstance(o, dict) and depth < 4:
+        return ("dict",) + tuple((k, _probe_snap(v, depth + 1)) for k, v in o.items())
+    if type(o).__module__.startswith("scipy.sparse"):
+        return ("sparse", type(o).__name__, o.shape, o.toarray().tobytes())
+    return repr(o)
+
+
+def _probe_alias(res, X):
+    """why `res` is not fresh with respect to the sample `X`, or None: some mutable part of it IS a part of X, shares memory
+    with one, or — the decisive test — an in-place write to it changes the content of X"""
+    xparts = list(_probe_parts(X))
+    rparts = list(_probe_parts(res))
+    for rp in rparts:
+        for xp in xparts:
+            if rp is xp:
+                return "the result holds the very object (%s) it was given" % type(xp).__name__
+            if isinstance(rp, np.ndarray) and isinstance(xp, np.ndarray) and rp.dtype != object and xp.dtype != object \
+                    and np.shares_memory(rp, xp):
+                return "the result shares memory with its argument"
+    before = _probe_snap(X)
+    for rp in rparts:
+        if isinstance(rp, np.ndarray) and rp.flags.writeable and rp.size and rp.dtype.kind in "biufc":
+            try:
+                if rp.dtype.kind == "b":
+                    np.logical_not(rp, out=rp)
+                else:
+                    np.add(rp, 1, out=rp, casting="unsafe")
+            except Exception:
+                continue
+        elif isinstance(rp, list) and rp:
+            rp.reverse(); rp.append(None)
+    if _probe_snap(X) != before:
+        return "an in-place write to the result changed the argument"
+    return None
+
+
+_PROBE_A = np.array([[0.5, 2.0, 1.0], [3.0, 1.5, 4.0], [2.5, 0.25, 3.5]])
+_PROBE_ARRAYS = {
+    "f8": lambda A: A.copy(), "f4": lambda A: A.astype(np.float32), "i8": lambda A: np.array([[3, 1, 2], [0, 5, 4], [7, 6, 8]]),
+    "c16": lambda A: A + 1j * A.T, "bool": lambda A: A > 1, "v8": lambda A: np.array([0.5, 2.0, 1.0]), "vi": lambda A: np.array([2, 0, 1]),
+    "fortran": lambda A: np.asfortranarray(A), "view": lambda A: A.copy()[:, ::-1], "0d": lambda A: np.array(1.5),
+    "nested list": lambda A: [[0.5, 2.0], [1.0, 3.0]], "list of arrays": lambda A: [A[:2].copy(), A[1:].copy()],
+    "list of lists of arrays": lambda A: [[A[0].copy()], [A[1].copy()]]}
+_PROBE_OTHERS = {
+    "str": lambda A: "a,b", "bytes": lambda A: b"ab", "dict": lambda A: {"k": A.copy()},
+    "csr": lambda A: __import__("scipy.sparse").sparse.csr_matrix(A), "coo": lambda A: __import__("scipy.sparse").sparse.coo_matrix(A),
+    "lil": lambda A: __import__("scipy.sparse").sparse.lil_matrix(A), "csc": lambda A: __import__("scipy.sparse").sparse.csc_matrix(A)}
+
+
+def _probe_sample(name):
+    return (_PROBE_ARRAYS.get(name) or _PROBE_OTHERS[name])(_PROBE_A)
+
+
+def _probe_resolve(d):
+    import builtins, importlib
+    if "." not in d:
+        return getattr(builtins, d, None)
+    parts = canon_parts = d.split(".")
+    head = {"np": "numpy", "plt": "matplotlib.pyplot", "mpl": "matplotlib"}.get(parts[0], parts[0])
+    parts = head.split(".") + parts[1:]
+    for k in range(len(parts) - 1, 0, -1):
+        try:
+            o = importlib.import_module(".".join(parts[:k]))
+        except Exception:
+            continue
+        for a in parts[k:]:
+            o = getattr(o, a, None)
+            if o is None:
+                break
+        return o
+    return None
+
+
+def _probe_call(f, args):
+    with warnings.catch_warnings(), np.errstate(all="ignore"), contextlib.redirect_stdout(io.StringIO()), \
+            contextlib.redirect_stderr(io.StringIO()):
+        warnings.simplefilter("ignore")
+        return f(*args)
+
+
+def _func_patterns(X):
+    return [(X,), (X, X), (X, 1), (X, 0), (X, 0, 1), ((X, X),), (X, X, X), (X, 50), (X, 0.5), (X, []), (X, 1, 0), ([X, X],)]
+
+
+def _method_patterns(R):
+    first = R[0] if isinstance(R, (list, str, bytes)) and len(R) else 0
+    return [(), (0,), (1,), (float,), (R,), (0, 1), ("a",), ("a", "b"), (["x", "y"],), (first,), (0, 0)]
+
+
+def probe_fresh_function(f, max_args=99):
+    """call `f` on every sample with every argument pattern of at most `max_args` arguments (the positions of `out` / `copy` /
+    `overwrite_input` are the tables' business: OUT_POS, COPY_POS, INPLACE_POS); returns (number of calls that returned, first
+    reason why a result is not fresh or an argument was modified)"""
+    ok = 0
+    for name in _PROBE_ARRAYS:
+        for k in range(len(_func_patterns(None))):
+            X = _probe_sample(name)
+            args = _func_patterns(X)[k]
+            if len(args) > max_args:
+                continue
+            before = _probe_snap(X)
+            try:
+                res = _probe_call(f, args)
+            except Exception:
+                continue
+            ok += 1
+            if _probe_snap(X) != before:
+                return ok, "the call modified its argument (%s, pattern %d)" % (name, k)
+            why = _probe_alias(res, X)
+            if why:
+                return ok, "%s (sample %s, argument pattern %d)" % (why, name, k)
+    return ok, None
+
+
+def probe_fresh_method(m, max_args=99):
+    ok = 0
+    for name in list(_PROBE_ARRAYS) + list(_PROBE_OTHERS):
+        for k in range(len(_method_patterns(0))):
+            R = _probe_sample(name)
+            if not hasattr(R, m) or (m == "copy" and isinstance(R, (list, dict))):     # list.copy / dict.copy keep the elements:
+                break                                                                    # modelled (store of the receiver's elements)
+            args = _method_patterns(R)[k]
+            if len(args) > max_args:
+                continue
+            before = _probe_snap(R)
+            try:
+                res = _probe_call(getattr(R, m), args)
+            except Exception:
+                continue
+            ok += 1
+            if _probe_snap(R) != before:
+                return ok, "the call modified its receiver (%s, pattern %d)" % (name, k)
+            why = _probe_alias(res, R)
+            if why:
+                return ok, "%s (receiver %s, argument pattern %d)" % (why, name, k)
+    return ok, None
+
+
+def fresh_probe(ctx):
+    """[T] DYNAMIC probe of tables.FRESH_FUNCS / FRESH_METHODS / READONLY-free producers against the INSTALLED numpy / scipy
+    (audit R1 / R2): every entry is called on real / complex / integer / boolean / Fortran-ordered / 0-d arrays, nested lists and
+    lists of arrays (methods: also on str, bytes, dict and CSR / COO / LIL / CSC matrices); no result may be its argument, hold
+    it, share memory with it, or pass an in-place write on to it, and no call may modify what it was given.  An entry no call
+    of which returns must be listed in tables.PROBE_EXEMPT (with the reason).  The probe itself is checked on functions known
+    to return their argument or a view."""
+    for what, f, meth in (("np.float64", np.float64, None), ("np.asarray", np.asarray, None), ("np.diff", np.diff, None),
+                          ("np.ravel", np.ravel, None), ("sum", sum, None), ("conj", None, "conj"), ("tocoo", None, "tocoo"),
+                          ("reshape", None, "reshape"), ("T-view", lambda a: a.T, None), ("tuple-holder", lambda a: (1, [a]), None)):
+        n, why = probe_fresh_function(f) if f is not None else probe_fresh_method(meth)
+        ctx.test("fresh_probe:detects_known_alias", why is not None)
+        if why is None:
+            raise HarnessError("the dynamic table probe does not detect that %s can return its argument / a view of it" % what)
+    for d in sorted(tables.FRESH_FUNCS):
+        f = _probe_resolve(d)
+        if f is None:
+            raise HarnessError("classification table: FRESH_FUNCS entry %s does not exist in the installed libraries" % d)
+        n, why = probe_fresh_function(f, min(t.get(d, 99) for t in (tables.OUT_POS, tables.COPY_POS, tables.INPLACE_POS)))
+        ctx.count("fresh_probe:calls", n)
+        if why:
+            ctx.test("fresh_probe:functions", False)
+            raise HarnessError("classification table: %s is listed as returning a FRESH result, but in the installed library %s — "
+                               "move it to ALIAS_OR_FRESH_FUNCS / VIEW_FUNCS" % (d, why))
+        if n == 0 and d not in tables.PROBE_EXEMPT:
+            raise HarnessError("classification table: no probe call of the FRESH_FUNCS entry %s returned; list it in "
+                               "tables.PROBE_EXEMPT with the reason, or extend the probe's argument patterns" % d)
+        if n:
+            ctx.test("fresh_probe:functions", True)
+        else:
+            ctx.count("fresh_probe:exempt")
+    for m in sorted(tables.FRESH_METHODS):
+        n, why = probe_fresh_method(m, min(t.get(m, 99) for t in (tables.METHOD_OUT_POS, tables.METHOD_COPY_POS)))
+        ctx.count("fresh_probe:calls", n)
+        if why:
+            ctx.test("fresh_probe:methods", False)
+            raise HarnessError("classification table: method %s is listed as returning a FRESH result, but in the installed library "
+                               "%s — move it to ALIAS_OR_FRESH_METHODS / VIEW_METHODS" % (m, why))
+        if n == 0 and "." + m not in tables.PROBE_EXEMPT:
+            raise HarnessError("classification table: no probe call of the FRESH_METHODS entry %s returned; list it as .%s in "
+                               "tables.PROBE_EXEMPT with the reason" % (m, m))
+        if n:
+            ctx.test("fresh_probe:methods", True)
+        else:
+            ctx.count("fresh_probe:exempt")
+
+
 def table_check(ctx):
     """[T] the positions of `out` / `copy` in tables.OUT_POS / COPY_POS / METHOD_OUT_POS / METHOD_COPY_POS against the installed
-    numpy's own signatures (ufuncs: number of inputs; functions: inspect.signature; ndarray methods: first line of the docstring)"""
+    numpy's own signatures (ufuncs: number of inputs; functions: inspect.signature; ndarray methods: first line of the docstring);
+    the positions of `overwrite_input` & co. (tables.INPLACE_POS); and the dynamic probe of the FRESH tables (`fresh_probe`)"""
     import inspect
+    fresh_probe(ctx)
     def resolve(d):
         o = np
         for part in d.split(".")[1:]:
@@ -1499,6 +1760,15 @@ def table_check(ctx):
         o = resolve(d)
         if o is None or isinstance(o, type):
             continue
+        for what in sorted(tables.INPLACE_KW):
+            pos = position(o, what)
+            if pos not in (None, "unknown") or d in tables.INPLACE_POS and pos is None and not any(
+                    position(o, w) not in (None, "unknown") for w in tables.INPLACE_KW):
+                ok = pos == tables.INPLACE_POS.get(d)
+                ctx.test("table_out_positions", ok)
+                if not ok:
+                    raise HarnessError("classification table: `%s` of %s is positional argument %r in the installed numpy, "
+                                       "tables.INPLACE_POS says %r" % (what, d, pos, tables.INPLACE_POS.get(d)))
         for what, tab in (("out", tables.OUT_POS), ("copy", tables.COPY_POS)):
             pos = position(o, what)
             if pos == "unknown":
@@ -1530,8 +1800,8 @@ def run(ctx):
     if results is None:                                   # run() without pre_build (not through check.py)
         with warnings.catch_warnings():
             warnings.simplefilter("ignore")
-            _, tr, results = py2ir.translate_all(common.REPO)
-        _STATE.update(results=results, translator=tr)
+            project, tr, results = py2ir.translate_all(common.REPO)
+        _STATE.update(results=results, translator=tr, project=project)
     tr = _STATE["translator"]
     kinds = {r.name: r.kind for r in results}
     # --- evidence about the translation
@@ -1551,6 +1821,15 @@ def run(ctx):
     ctx.extra["programs"] = {"entry_points": len(results), "instructions": sum(len(r.prog.instrs) for r in results),
                              "allocation_sites": sum(r.sol["nObj"] - 1 for r in results)}
     ctx.extra["unknown_calls"] = sorted(tr.unknown_calls)
+    # what the generated obligation `expected_obligations_present` is about (empty on the unchanged tree)
+    policy = py2ir.load_policy()
+    problems = py2ir.translation_problems(_STATE["project"], results, policy)
+    ctx.extra["translation_problems"] = problems
+    ctx.extra["obligations"] = {"committed_list": len(policy["expected_obligations"]),
+                                "generated_not_in_committed_list": sorted({n for r in results for n in r.obligation_names()}
+                                                                          - set(policy["expected_obligations"]))}
+    if problems:
+        print("translation problems (obligation expected_obligations_present): %s" % "; ".join(problems[:4]), flush=True)
     ctx.extra["source_digest"] = {m.path: common.source_digest(m.path) for m in _STATE["project"].modules.values()} if "project" in _STATE else {}
     flagged = {r.name: {"unsafe_writes": r.unsafe[:4], "global_state": r.classification,
                         "why": (py2ir.explain(r.prog, r.sol, int(r.unsafe[0]["instr"].split()[1])) if r.unsafe else [])}
@@ -1585,7 +1864,8 @@ def run(ctx):
         ctx.extra["entry_points_without_argument_factory"] = missing
         ctx.count("sweep:no_factory", len(missing))
     broken_text = " ".join(getattr(ctx, "proof_broken", []) or [])
-    suspects = sorted(set(flagged) | {r.name for r in results if r.ident in broken_text})
+    suspects = sorted(set(flagged) | {r.name for r in results if r.ident in broken_text}
+                      | {r.name for r in results if any(q.startswith(r.name + " ") or q.endswith("_" + r.ident) for q in problems)})
     callers = sorted({r.name for r in results if any(s.split(".")[-1] in (o.get("origin", "")) for s in suspects for o in r.unsafe)} - set(suspects))
     base, focus = ctx.n(30, 200), ctx.n(150, 1500)
     # calls interleaved between two calls of the case: every entry point, the (slow, 3-D) landscape plots at a third of the weight
@@ -1689,15 +1969,21 @@ MANIFEST = {
             "harness/translator/py2ir.py emits one IR program per public entry point (117: functions, methods, constructors, properties, dunder "
             "operators; persim-internal calls inlined per call site) plus the obligations safe_<entry>, glob_<entry>, wf_<entry> (115 each) "
             "and repeat_<entry> (57: the entry points to which second_call_same_result applies; methods that cache on their object are "
-            "not among them), each discharged by kernel evaluation (decide +kernel, no native_decide). One entry point is dynamic-only "
+            "not among them), each discharged by kernel evaluation (decide +kernel, no native_decide), and expected_obligations_present "
+            "(every obligation of the committed list expected_obligations.json is still generated — a repeat_ theorem of the list is emitted "
+            "whether or not it still holds —, no module has unmodelled module-level code without an entry point to fail, and the entry points "
+            "without a safety obligation have no flagged write beyond the reviewed ones). One entry point is dynamic-only "
             "(check_assignment_feasibility, see dynamic_only.json) and one is in place by documented contract (PersImage.to_landscape: "
             "obligation unsafe_<entry>: post-fixpoint, well-formed and not safe). Every run also executes the dynamic sweep on all entry "
             "points and on the three public methods inherited from scikit-learn (no persim source, no IR).",
     "note": "Trusted: Lean kernel; the translator py2ir.py with its classification table tables.py and policy.json (the tie between source and "
-            "IR is the translator, validated by a seeded corpus of 76 known-bad / 29 known-good snippets, by the check of its out/copy "
-            "positions against the installed numpy, and by the sweep, not proved). The translator over-approximates what it cannot resolve: "
-            "calls through unresolved callables are unknown calls that may write everything reachable; only `weight` / `kernel` are assumed "
-            "read-only caller-supplied callables. [T] only: "
+            "IR is the translator, validated by a seeded corpus of 157 known-bad / 51 known-good / 23 to-be-refused snippets, by the check of its "
+            "out/copy/overwrite_input positions against the installed numpy, by a dynamic probe of every function / method it calls fresh "
+            "(identity, shared memory, write-through, on the installed numpy / scipy), and by the sweep, not proved). The translator "
+            "over-approximates what it cannot resolve: calls through unresolved callables are unknown calls that may write everything "
+            "reachable; only `weight` / `kernel` are assumed read-only caller-supplied callables; source it does not model (decorators, "
+            "module-level rebinding, conditional definitions, code in __init__.py, unreviewed `_VERIF_*` hooks) is refused or translated, "
+            "never skipped. [T] only: "
             "argument byte-comparison, repeat / interleave / fresh-object equality (for plots: of what was drawn, and no artist on axes that "
             "were not passed), np.random.seed reproducibility of the mGH upper bound, and "
             "representation independence (nested lists / int arrays / float arrays) — the IR has no values or dtypes. Attribute tables of "
